@@ -136,6 +136,11 @@ fn check_id(v: u32) -> CheckResult {
         let other = format!("HP:{:07}", v.wrapping_add(1));
         crate::ensure!(!(id == other.as_str()), "eq-str", "HpoTermId({v}) == {other:?} is true");
         crate::ensure!(format!("{id:?}") == format!("HpoTermId({text})"), "debug", "Debug of {v} is {:?}", format!("{id:?}"));
+        // the rendering is the id, whatever the placeholder asks for: a precision must not cut it (a cut rendering
+        // is a different id), a width / alignment / fill must not pad it (a padded rendering does not parse)
+        for (spec, got) in [("{:.9}", format!("{id:.9}")), ("{:.3}", format!("{id:.3}")), ("{:14}", format!("{id:14}")), ("{:<14}", format!("{id:<14}")), ("{:>14}", format!("{id:>14}")), ("{:*^15}", format!("{id:*^15}")), ("{:014}", format!("{id:014}")), ("{:+}", format!("{id:+}")), ("{:#}", format!("{id:#}"))] {
+            crate::ensure!(got == want, "to_string/format-spec", "format!(\"{spec}\", HpoTermId({v})) = {got:?}, expected {want:?}");
+        }
     }
     Ok(())
 }
@@ -253,7 +258,7 @@ impl Property for C20 {
         "C20"
     }
     fn rule(&self) -> String {
-        "Enumerated (exhaustive sub-sweep, both tiers): every id 0..10^7 plus 10^7..10^7+10^4, powers of two and the u32 borders: to_string == 'HP:'+7-digit zero padding, try_from(to_string) == id, from(to_be_bytes) == id, from_u32/as_u32/to_usize/From<u32>/From<u64>/From<usize>/From<u16> agree, From<String>, == &str and Debug on every 64th id. Generated: strings = prefix pool (HP:, hp:, short, multi-byte prefixes whose 3rd byte lies inside a character) x body pool (digits, leading zeros, +/-, spaces, overflow 4294967295/6, non-ASCII digits, random unicode, one control / white-space / separator / exponent character at any position of a number, trailing CR/LF), structural edits of acceptable text (a slice, half of the time the prefix, repeated / copied to the end / moved / removed / reversed: 'HP:HP:5', 'HP:5HP:5') plus arbitrary strings of any chars; oracle = hand-written reference parser (>=4 bytes, byte 3 on a char boundary, rest matches +?[0-9]+ and <= u32::MAX); never panics; Gene/Omim/OrphaId::try_from checked with the same grammar on the whole string. evaluations = ids enumerated + strings checked. Non-trivial = string is not the canonical rendering of an id; distinct by string.".into()
+        "Enumerated (exhaustive sub-sweep, both tiers): every id 0..10^7 plus 10^7..10^7+10^4, powers of two and the u32 borders: to_string == 'HP:'+7-digit zero padding, try_from(to_string) == id, from(to_be_bytes) == id, from_u32/as_u32/to_usize/From<u32>/From<u64>/From<usize>/From<u16> agree, From<String>, == &str, Debug and Display through placeholders with precision / width / alignment / fill / sign flags (the rendering stays 'HP:' + 7 digits) on every 64th id. Generated: strings = prefix pool (HP:, hp:, short, multi-byte prefixes whose 3rd byte lies inside a character) x body pool (digits, leading zeros, +/-, spaces, overflow 4294967295/6, non-ASCII digits, random unicode, one control / white-space / separator / exponent character at any position of a number, trailing CR/LF), structural edits of acceptable text (a slice, half of the time the prefix, repeated / copied to the end / moved / removed / reversed: 'HP:HP:5', 'HP:5HP:5') plus arbitrary strings of any chars; oracle = hand-written reference parser (>=4 bytes, byte 3 on a char boundary, rest matches +?[0-9]+ and <= u32::MAX); never panics; Gene/Omim/OrphaId::try_from checked with the same grammar on the whole string. evaluations = ids enumerated + strings checked. Non-trivial = string is not the canonical rendering of an id; distinct by string.".into()
     }
     fn assumptions(&self) -> Vec<String> {
         vec!["'parsable to u32' is Rust's grammar: optional '+', ASCII digits, value <= u32::MAX".into()]
